@@ -43,6 +43,27 @@ CHECKS = {
         "mock server as environment; capability changes only between calls; "
         "three sticky-flag consequences are listed as known findings",
         "DESIGN.md 4-C15", "iterclient"),
+    "C16": (
+        "PlusCal/TLA+ model of the listener's threads checked by TLC over all "
+        "interleavings (safety + termination); the real WBEMListener run "
+        "under a serialising scheduler on TLC-derived and seeded schedules, "
+        "plus OS-scheduled loopback runs; executions validated by TLC against "
+        "the requirement machine",
+        "TLC explores every interleaving of main (start/stop), callback "
+        "thread and 2-3 sender/handler threads at the granularity of queue, "
+        "event, sleep, join and callback steps and proves ExactlyOnce, "
+        "NeverTwice, CallbackOrder, SenderFifo, StopClean and Termination for "
+        "the code shape with a local queue reference (and refutes the legacy "
+        "shape and a wrong stop order); the real listener code then runs, "
+        "unmodified, on real threads serialised by a scheduler that decides "
+        "every preemption between those primitives, on schedules taken from "
+        "TLC behaviours and seeded random/priority-change choosers, with the "
+        "real request handler; a few runs use real loopback sockets; all "
+        "recorded executions are judged by TLC.",
+        "atomicity of code between scheduling points (GIL); in-process "
+        "stand-in for the socket server in the controlled tier; HTTPS start "
+        "failure not modelled",
+        "DESIGN.md 4-C16", "listener"),
     "C10": (
         "TLA+ reference keyed map with set-valued status codes (RepoCore); "
         "code-shaped validation-order + dict/heap machine refinement in TLC; "
